@@ -329,6 +329,15 @@ COMPLETE_PREFIXES = {"xn--", "sthree-", "amzn-s3-demo-", "sthree-configurator"}
 COMPLETE_SUFFIXES = {"-s3alias", "--ol-s3", ".mrap", "--x-s3", "--table-s3"}
 
 
+def _closure_arg(db, b, a):
+    """the closure body an argument denotes (a closure literal, or a named closure passed by value / reference)"""
+    for l, _ in (flow.resolve_chain(b, a) or []):
+        for df in b.defs().get(l, []):
+            if df["kind"] == "assign" and df["rv"]["k"] == "agg" and df["rv"].get("agg") == "closure":
+                return db.body(df["rv"].get("def", ""))
+    return None
+
+
 def rule_r6(chk, db):
     b = db.body("s3s::path::check_bucket_name")
     if b is None:
@@ -348,22 +357,21 @@ def rule_r6(chk, db):
             ints = sorted(int(c["v"]) for c in sl.consts if c.get("c") == "int")
             atoms["length"] = (ints, o)
         elif nm == "all" and "Iterator" in d or nm == "all":
-            p = flow.op_place(t["args"][1]) if len(t["args"]) > 1 else None
-            df = flow.single_def(b, p["l"]) if p else None
-            if df and df["kind"] == "assign" and df["rv"].get("agg") == "closure":
-                acc, err = bytesem.accepted_bytes(db.body(df["rv"]["def"]))
+            cb = _closure_arg(db, b, t["args"][1]) if len(t["args"]) > 1 else None
+            if cb is not None:
+                acc, err = bytesem.accepted_bytes(cb, db=db)
                 atoms["class"] = (acc, err, o, bi)
-        elif nm == "map" and "Option" in d:
-            p = flow.op_place(t["args"][1])
-            df = flow.single_def(b, p["l"]) if p else None
+        elif (nm == "map" and "Option" in d) or (nm == "is_some_and" and "Option" in d):
+            # `first().map(pred) != Some(true)` / `!first().is_some_and(pred)`
             which = None
             sl = flow.backward(b, t["args"][0], at=bi)
             if any(short(callee_def(x)) == "first" for _, x, _ in sl.calls):
                 which = "first"
             if any(short(callee_def(x)) == "last" for _, x, _ in sl.calls):
                 which = "last"
-            if df and df["kind"] == "assign" and df["rv"].get("agg") == "closure" and which:
-                acc, err = bytesem.accepted_bytes(db.body(df["rv"]["def"]))
+            cb = _closure_arg(db, b, t["args"][1]) if len(t["args"]) > 1 else None
+            if cb is not None and which:
+                acc, err = bytesem.accepted_bytes(cb, db=db)
                 atoms[which] = (acc, err, bi)
         elif nm == "contains" and "str" in d:
             atoms["contains:" + ",".join(paths.str_args(b, t))] = o
